@@ -4,6 +4,8 @@
 //   tree <type 0=BST 1=RB 2=AVL> <cmp 0=natural 1=reversed 2=mod> <ctor 0=new 1=with_data 2=full>
 //        <notif bit0=key notifier bit1=value notifier bit2=no comparator data bit3=key 0 is the NULL pointer> <universe>
 //   i <k>            insert fresh key object + fresh value object for key k
+//   I <k>            insert a fresh key object for key k together with the value object that is stored for k right now (a value
+//                    inserted a second time: the notifier is owed one call for the insertion that ends here); like i if k is absent
 //   r <k>            remove key k
 //   l <k>            lookup key k
 //   f <stop>         foreach; callback returns TRUE at the (stop+1)-th visited pair; stop<0 never
@@ -50,7 +52,7 @@ struct Case {
 std::ostream &operator<<(std::ostream &os, const Op &o) {
   os << o.kind;
   switch (o.kind) {
-  case 'i': case 'r': case 'l': case 'f': os << ' ' << o.a; break;
+  case 'i': case 'I': case 'r': case 'l': case 'f': os << ' ' << o.a; break;
   case 'B': os << ' ' << o.a << ' ' << o.b << ' ' << o.c << ' ' << o.d; break;
   case 'D': case 'G': case 'H': os << ' ' << o.a << ' ' << o.b; break;
   default: break;
@@ -135,6 +137,7 @@ struct LogEnt { int id; int kind; };
 vector<LogEnt> g_log;
 bool g_free_on_destroy = false;
 string g_destroy_error;
+void *g_keep_obj = nullptr;   // op I: this value object is being replaced BY ITSELF - the notifier call is logged, the object lives on
 
 void destroy_common(void *p, int kind) {
   Obj *o = (Obj *)p;
@@ -147,6 +150,7 @@ void destroy_common(void *p, int kind) {
     return;
   }
   g_log.push_back({o->id, kind});
+  if (p == g_keep_obj) return;
   if (g_free_on_destroy) { o->magic = MAGIC_DEAD; free(o); }
   else o->magic = MAGIC_DEAD; // logically dead: comparator complains if it is still used as a key
 }
@@ -389,6 +393,27 @@ struct Runner {
     max_n = std::max(max_n, (int)model.size());
   }
 
+  void do_reinsert_same_value(int k) {
+    auto it = model.find(k);
+    if (it == model.end()) { do_insert(k); return; }
+    Obj *ko = mk(k, 0); int kid = ko ? ko->id : next_id++;
+    if (ko) all[ko->id] = ko;
+    Obj *vo = it->second.v;
+    std::set<std::pair<int, int>> expect;
+    saw_replace = true;
+    if (has_kd()) expect.insert({it->second.kid, 0}); else owned.push_back(it->second.k);
+    if (has_vd()) expect.insert({it->second.vid, 1});
+    g_keep_obj = vo;
+    p_tree_insert(tree, ko, vo);
+    g_keep_obj = nullptr;
+    if (!ko) g_null_kid = kid;
+    int vid = it->second.vid;
+    if (has_vd()) { all.erase(vid); vid = next_id++; vo->id = vid; all[vid] = vo; }   // the same object, inserted anew: a new logical insertion (one entry per object in `all`)
+    model[k] = Ent{ko, vo, kid, vid};
+    check_log(expect, "insert(same value object)");
+    vl::stats().klass("replace_with_same_value_object");
+  }
+
   void do_remove(int k) {
     auto it = model.find(k);
     std::set<std::pair<int, int>> expect;
@@ -522,6 +547,7 @@ struct Runner {
       int U = cs.universe;
       switch (o.kind) {
       case 'i': do_insert(((o.a % U) + U) % U); after_mutation(); break;
+      case 'I': do_reinsert_same_value(((o.a % U) + U) % U); after_mutation(); break;
       case 'r': do_remove(((o.a % U) + U) % U); after_mutation(); break;
       case 'l': lookup_check(((o.a % U) + U) % U); if (pending_two_child) saw_touch_after_two_child = true; break;
       case 'f': do_foreach(o.a); if (!stop()) scan(false); break;
@@ -635,6 +661,7 @@ rc::Gen<Op> genOp(int U, bool shapes) {
   auto key = shapes && U > 64 ? gen::oneOf(rng(0, U), rng(0, std::min(U, 40))) : rng(0, U);
   auto ins = gen::map(key, [](int k) { Op o; o.kind = 'i'; o.a = k; return o; });
   auto rem = gen::map(key, [](int k) { Op o; o.kind = 'r'; o.a = k; return o; });
+  auto reins = gen::map(key, [](int k) { Op o; o.kind = 'I'; o.a = k; return o; });
   auto look = gen::map(key, [](int k) { Op o; o.kind = 'l'; o.a = k; return o; });
   auto fe = gen::map(gen::weightedOneOf<int>({{2, gen::just(-1)}, {3, rng(0, 4)}, {2, rng(0, std::min(U, 80))}}),
                      [](int s) { Op o; o.kind = 'f'; o.a = s; return o; });
@@ -644,8 +671,8 @@ rc::Gen<Op> genOp(int U, bool shapes) {
   auto brem = gen::map(gen::tuple(rng(0, 5), rng(1, U > 64 ? 200 : U + 1)),
                        [](const std::tuple<int, int> &t) { Op o; o.kind = 'D'; o.a = std::get<0>(t); o.b = std::get<1>(t); return o; });
   if (shapes)
-    return gen::weightedOneOf<Op>({{30, ins}, {30, rem}, {3, look}, {3, fe}, {1, clr}, {8, bulk}, {10, brem}});
-  return gen::weightedOneOf<Op>({{40, ins}, {28, rem}, {8, look}, {12, fe}, {2, clr}, {4, bulk}, {4, brem}});
+    return gen::weightedOneOf<Op>({{30, ins}, {30, rem}, {3, look}, {3, fe}, {1, clr}, {8, bulk}, {10, brem}, {2, reins}});
+  return gen::weightedOneOf<Op>({{40, ins}, {28, rem}, {8, look}, {12, fe}, {2, clr}, {4, bulk}, {4, brem}, {5, reins}});
 }
 
 rc::Gen<Case> genCase(const string &prop) {
